@@ -210,18 +210,31 @@ theorem exists_zip_of_mem {α β} (l1 : List α) (l2 : List β) (h : l2.length =
 
 /-- what `integrate_preserves_genotype_multiset` needs of one (sub-instance, sub-result) pair, relative to the
 haplotype columns `orig` the sub-genotypes were taken from -/
-def PairOk (orig : List (List Allele)) (sr : SubInst × List (List Allele)) : Prop :=
+def GoodB (B : List Allele → Prop) (gv col : List Allele) : Prop := B col ∨ col.Perm gv
+
+/-- the two "bad column" predicates used: an undetermined allele (`Good`), or none at all (plain rearrangement) -/
+structure BadOk (B : List Allele → Prop) : Prop where
+  assign : ∀ (c : List Allele) (ts : List Nat) (vs : List Allele), ts.Nodup → (∀ t ∈ ts, t < c.length) →
+    vs.length = ts.length → B vs → B (assign c ts vs)
+  perm : ∀ x y : List Allele, x.Perm y → B y → B x
+
+theorem badOk_undetermined : BadOk (fun c => (-1 : Allele) ∈ c) :=
+  ⟨fun c ts vs h1 h2 h3 hm => mem_assign_of_mem_vs c ts vs h1 h2 h3 _ hm, fun _ _ hp hm => hp.symm.subset hm⟩
+
+theorem badOk_false : BadOk (fun _ => False) := ⟨fun _ _ _ _ _ _ h => h, fun _ _ _ h => h⟩
+
+def PairOk (B : List Allele → Prop) (orig : List (List Allele)) (sr : SubInst × List (List Allele)) : Prop :=
   sr.1.snps.Nodup ∧ sr.1.ts.Nodup ∧ sr.2.length = sr.1.snps.length ∧
   (∀ p ∈ sr.1.snps, p < orig.length ∧ ∀ t ∈ sr.1.ts, t < (orig.getD p []).length) ∧
-  ∀ pr ∈ sr.1.snps.zip sr.2, pr.2.length = sr.1.ts.length ∧ Good (extractPerm sr.1.ts (orig.getD pr.1 [])) pr.2
+  ∀ pr ∈ sr.1.snps.zip sr.2, pr.2.length = sr.1.ts.length ∧ GoodB B (extractPerm sr.1.ts (orig.getD pr.1 [])) pr.2
 
-theorem integrateHaps_good (orig : List (List Allele)) :
+theorem integrateHaps_good (B : List Allele → Prop) (hB : BadOk B) (orig : List (List Allele)) :
     ∀ (pairs : List (SubInst × List (List Allele))) (c : List (List Allele)),
-      (pairs.map (·.1)).Pairwise DisjointAt → (∀ sr ∈ pairs, PairOk orig sr) →
+      (pairs.map (·.1)).Pairwise DisjointAt → (∀ sr ∈ pairs, PairOk B orig sr) →
       c.length = orig.length → (∀ p, (c.getD p []).length = (orig.getD p []).length) →
       (∀ sr ∈ pairs, ∀ p ∈ sr.1.snps, extractPerm sr.1.ts (c.getD p []) = extractPerm sr.1.ts (orig.getD p [])) →
-      (∀ p, Good (orig.getD p []) (c.getD p [])) →
-      (integrateHaps c pairs).length = orig.length ∧ ∀ p, Good (orig.getD p []) ((integrateHaps c pairs).getD p []) := by
+      (∀ p, GoodB B (orig.getD p []) (c.getD p [])) →
+      (integrateHaps c pairs).length = orig.length ∧ ∀ p, GoodB B (orig.getD p []) ((integrateHaps c pairs).getD p []) := by
   intro pairs
   induction pairs with
   | nil => intro c _ _ hl _ _ hg; exact ⟨hl, hg⟩
@@ -266,12 +279,19 @@ theorem integrateHaps_good (orig : List (List Allele)) :
         have hrc : ∀ t ∈ sr.1.ts, t < (c.getD p []).length := fun t ht => by
           rw [hcl p]; exact (hrange p hps).2 t ht
         rcases hrg with hm | hperm
-        · exact Or.inl (mem_assign_of_mem_vs _ _ _ htnd hrc hrlen _ hm)
+        · exact Or.inl (hB.assign _ _ _ htnd hrc hrlen hm)
         · have hagp := hag sr List.mem_cons_self p hps
           have hp2 : (assign (c.getD p []) sr.1.ts r).Perm (c.getD p []) :=
             assign_perm _ _ _ htnd hrc hrlen (hagp ▸ hperm)
           rcases hg p with hm | hpg
-          · exact Or.inl (hp2.symm.subset hm)
+          · exact Or.inl (hB.perm _ _ hp2 hm)
           · exact Or.inr (hp2.trans hpg)
+
+theorem findCollapsed_snps_sorted (threads : List (List Nat)) (cols : List (List Allele)) (s : SubInst)
+    (hs : s ∈ findCollapsed threads cols) : s.snps.Pairwise (· < ·) := by
+  obtain ⟨cid, _, hs⟩ := List.mem_flatMap.mp hs
+  have h := (collapsedOf_spec threads cols cid).2
+  rw [List.pairwise_flatMap] at h
+  exact h.1 s hs
 
 end WhVerif.C15
